@@ -170,6 +170,13 @@ CLAIMED = {
         'technique': 'contract-based deductive verification (Verus) of extracted real code (per-node clauses) + bounded differential comparison with a reference interpreter on random programs',
         'design_ref': 'DESIGN.md 8.27',
     },
+    'C11': {
+        'text': 'PARTIAL.  Deductive proof (Verus, unit rename, shared with C10) that every use of a clause is a renamed copy with one fresh variable id per name across head and body, sharing no id with any other use or with the query: the search works on ids, never on names. '
+                'That the answers, their order and the output then do not depend on the names is C01 composed with this and is checked BOUNDED: a metamorphic comparison of 1500 random programs per seed with their consistently renamed variants (c11_rename).',
+        'note': 'The composition with the search is bounded only (see C01). Trusted: as C10.',
+        'technique': 'contract-based deductive verification (Verus) of extracted real code (renaming apart) + bounded metamorphic comparison on random programs',
+        'design_ref': 'DESIGN.md 8.27',
+    },
     'C04': {
         'text': 'PARTIAL.  Deductive proof (Verus) on the verbatim bodies of format_for_print_pred and next_solution_print (unit print) and of next_solution_bip (unit solver): '
                 'the text of print is its first argument with the `%s` markers replaced left to right by the later arguments (left-over arguments follow one another - concatenation when there is no marker -, left-over markers vanish), '
@@ -231,7 +238,6 @@ NOT_APPLICABLE = {
     'C08': 'not yet built in this session (planned: acyclicity invariant of unify)',
     'C09': 'not yet built in this session (planned: Verus contract on unify)',
     'C10': 'not yet built in this session',
-    'C11': 'consequence of C10 + C01 through the solver; no per-function contract decides it',
     'C12': 'not yet built in this session',
     'C13': 'not yet built in this session',
     'C14': 'not yet built in this session',
